@@ -17,6 +17,11 @@ type hidRec struct {
 	prev     int
 	prevHeap map[string]Term
 	frontier Term
+	// functions whose execution the havoc stands for (nil: anything the unit's function can reach);
+	// selfFn != nil: additionally the direct stores of that function (loop bodies)
+	roots  []*ssa.Function
+	selfFn *ssa.Function
+	rooted bool
 }
 
 // ---------------------------------------------------------------------------
@@ -40,7 +45,7 @@ func (u *Unit) resolveHid(fam string, hid int, sortv string) Term {
 		t = u.ctx.Const(fam+"@pre", sortv)
 	case 1:
 		t = u.ctx.Const(fmt.Sprintf("%s@h%d", fam, hid), sortv)
-		if d := u.w.stableIn(fam, u.fn); d != nil && r.prevHeap != nil {
+		if d := u.w.stableAt(fam, u.fn, r); d != nil && r.prevHeap != nil {
 			// stable family: cells of objects allocated before the havoc are unchanged (and still
 			// refer to objects allocated before it)
 			prev, ok := r.prevHeap[fam]
@@ -157,7 +162,8 @@ func (u *Unit) havocAll(st *State, why string) {
 	sort.Slice(keepMaps, func(i, j int) bool { return keepMaps[i].ref.S < keepMaps[j].ref.S })
 	prevHeap, prevHid, frontier := st.Heap, st.Hid, st.allocTerm()
 	st.Heap = map[string]Term{}
-	st.Hid = u.newHid(hidRec{kind: 1, prev: prevHid, prevHeap: prevHeap, frontier: frontier})
+	st.Hid = u.newHid(hidRec{kind: 1, prev: prevHid, prevHeap: prevHeap, frontier: frontier, roots: u.havocRoots, selfFn: u.havocSelf, rooted: u.havocRooted})
+	u.havocRoots, u.havocSelf, u.havocRooted = nil, nil, false
 	defer func() {
 		for _, k := range keep {
 			u.storeAt(st, k.ptr, k.elem, k.val)
